@@ -121,8 +121,16 @@ def gen_docs(prop, seed, n, profile="F", replay=None, max_depth=3, features=None
                 ("b", {"type": "boolean"}, False), ("n", {"type": "number"}, 0.0), ("a", {"type": "array", "items": {"type": "string"}}, []),
                 ("m", {"type": "object", "additionalProperties": {"type": "integer"}}, {}),
                 ("o", {"type": ["string", "null"]}, None), ("e", {"type": "string", "enum": ["", "y"]}, ""),
-                ("c", {"type": "string", "maxLength": 4}, "")]
-        for i in range(6):
+                ("c", {"type": "string", "maxLength": 4}, ""),
+                # integer defaults that an f64 cannot hold exactly, and the ends of the 64-bit ranges
+                ("big", {"type": "integer", "format": "int64"}, 9007199254740993),
+                ("neg", {"type": "integer", "format": "int64"}, -9007199254740993),
+                ("imax", {"type": "integer", "format": "int64"}, 9223372036854775807),
+                ("imin", {"type": "integer", "format": "int64"}, -9223372036854775808),
+                ("umax", {"type": "integer", "format": "uint64"}, 18446744073709551615),
+                ("u32max", {"type": "integer", "format": "uint32"}, 4294967295),
+                ("plainbig", {"type": "integer"}, 9007199254740993)]
+        for i in range(10):
             r = util.rng(seed, prop, "zdef", i)
             props = {"id": {"type": "integer"}}
             for nm, sch, z in r.sample(zero, r.randrange(2, 6)):
